@@ -43,17 +43,21 @@ TreeOf(items) == UNION { ItemTree(items[i]) : i \in 1..Len(items) }
 Core(T) == {e \in T : e[2] # EmptyMark}
 Under(T, p) == {e \in T : IsPrefix(p, e[1])}
 
-\* every definition (with multiplicity): sequence of paths defined by the items, in order
-RECURSIVE DefsOf(_)
-ItemDefs(x) == IF IsInh(x) THEN [i \in 1..Len(x.names) |-> <<x.names[i]>>]
-               ELSE IF IsSet(x.val) /\ x.val.items # <<>>
-                    THEN LET sub == DefsOf(x.val.items) IN [i \in 1..Len(sub) |-> x.ap \o sub[i]]
-                    ELSE <<x.ap>>
-DefsOf(items) == IF items = <<>> THEN <<>> ELSE ItemDefs(items[1]) \o DefsOf(Tail(items))
-\* no attribute is defined twice (a leaf twice, or a leaf and a subtree)
+\* every definition (with multiplicity): sequence of [p : path, leaf : the value is not a set], in order
+RECURSIVE DefRecs(_)
+ItemDefRecs(x) == IF IsInh(x) THEN [i \in 1..Len(x.names) |-> [p |-> <<x.names[i]>>, leaf |-> TRUE]]
+                  ELSE IF IsSet(x.val) /\ x.val.items # <<>>
+                       THEN LET sub == DefRecs(x.val.items) IN [i \in 1..Len(sub) |-> [p |-> x.ap \o sub[i].p, leaf |-> sub[i].leaf]]
+                       ELSE << [p |-> x.ap, leaf |-> ~IsSet(x.val)] >>
+DefRecs(items) == IF items = <<>> THEN <<>> ELSE ItemDefRecs(items[1]) \o DefRecs(Tail(items))
+DefsOf(items) == LET d == DefRecs(items) IN [i \in 1..Len(d) |-> d[i].p]
+\* no attribute is defined twice: not the same path twice, and nothing below a path that holds a non-set value
+\* (an explicit `a = { };' next to `a.b = ..;' merges in Nix and is no duplicate)
 NoDuplicate(items) ==
-    LET d == DefsOf(items) IN
-    \A i, j \in 1..Len(d) : i < j => ~IsPrefix(d[i], d[j]) /\ ~IsPrefix(d[j], d[i])
+    LET d == DefRecs(items) IN
+    \A i, j \in 1..Len(d) : i # j =>
+        /\ d[i].p # d[j].p
+        /\ ~(d[i].leaf /\ ProperPrefix(d[i].p, d[j].p))
 
 -----------------------------------------------------------------------------
 (* Reference semantics of  set PATH VALUE  on one attribute set (items).    *)
@@ -69,8 +73,9 @@ Via(I, p) == LET t == Through(I, p) IN CHOOSE i \in t : \A j \in t : Len(I[i].ap
 \* reasons a set is refused (document unchanged)
 RECURSIVE SetRefusal(_, _)
 SetRefusal(I, p) ==
-    IF Exact(I, p) # {} THEN "none"
-    ELSE IF Beyond(I, p) # {} THEN "attrpath_root"            \* p names an attrpath root / intermediate
+    IF Beyond(I, p) # {} THEN "attrpath_root"                 \* p names an attrpath root / intermediate (also when an
+                                                              \* explicit binding of the same name exists next to it)
+    ELSE IF Exact(I, p) # {} THEN "none"
     ELSE IF Inherited(I, p) # {} /\ Len(p) > 1 THEN "non_set"
     ELSE IF Through(I, p) # {} THEN
         LET i == Via(I, p) IN
@@ -97,7 +102,8 @@ SetIn(I, p, v, ml) ==
 (* Reference semantics of  rm PATH.                                         *)
 RECURSIVE RmRefusal(_, _)
 RmRefusal(I, p) ==
-    IF Exact(I, p) # {} THEN "none"
+    IF Exact(I, p) # {} /\ Beyond(I, p) # {} THEN "family"       \* explicit binding AND attrpath entries for one name
+    ELSE IF Exact(I, p) # {} THEN "none"
     ELSE IF Through(I, p) # {} THEN
         LET i == Via(I, p) IN
         IF ~IsSet(I[i].val) THEN "non_set" ELSE RmRefusal(I[i].val.items, Drop(p, Len(I[i].ap)))
@@ -135,7 +141,8 @@ SetFrame(I, J, p) ==
         /\ SetFrame(I[i].val.items, J[i].val.items, Drop(p, Len(I[i].ap)))
     ELSE
         /\ Len(J) = Len(I) + 1 /\ SubSeq(J, 1, Len(I)) = I
-        /\ IsBind(J[Len(J)]) /\ J[Len(J)].eol = ""      \* (a comment that dangled before the closing brace now precedes it)
+        /\ IsBind(J[Len(J)]) /\ J[Len(J)].eol = "" /\ ~J[Len(J)].blank   \* only the binding line is inserted
+                                                              \* (a comment that dangled before the closing brace now precedes it)
 
 \* neighbours of a removed item may lose / gain only their `blank' flag
 SameButBlank(x, y) == [x EXCEPT !.blank = FALSE] = [y EXCEPT !.blank = FALSE]
